@@ -2,7 +2,7 @@
 import interp_common
 
 MODULES = ["Props.C03"]
-THEOREMS = ["Props.C03.c03_scan_count", "Props.C03.c03_match_count", "Props.C03.c03_ctx_counts", "Props.C03.c03_sameline"]
+THEOREMS = ["Props.C03.c03_scan_count", "Props.C03.c03_match_count", "Props.C03.c03_ctx_counts", "Props.C03.c03_sameline", "Props.C03.c03_when_order"]
 
 
 def run(check, tier):
